@@ -25,6 +25,7 @@ import (
 	"embed"
 	"fmt"
 	"go/ast"
+	"go/constant"
 	"go/parser"
 	"go/token"
 	"go/types"
@@ -524,12 +525,17 @@ type inlState struct {
 	tsubst map[*types.TypeName]ast.Expr
 	// result types of the function whose `return` statements appear at this level (nil: none may)
 	ret *types.Tuple
+	// parameters of the helpers being expanded that hold a compile-time constant here (normalize_fold.go)
+	consts map[types.Object]constant.Value
 }
 
 func (st *inlState) push(f *types.Func, pos token.Pos) *inlState {
-	ns := &inlState{stack: append(append([]*types.Func{}, st.stack...), f), sites: append(append([]token.Pos{}, st.sites...), pos), top: st.top, tsubst: map[*types.TypeName]ast.Expr{}, ret: st.ret}
+	ns := &inlState{stack: append(append([]*types.Func{}, st.stack...), f), sites: append(append([]token.Pos{}, st.sites...), pos), top: st.top, tsubst: map[*types.TypeName]ast.Expr{}, ret: st.ret, consts: map[types.Object]constant.Value{}}
 	for k, v := range st.tsubst {
 		ns.tsubst[k] = v
+	}
+	for k, v := range st.consts {
+		ns.consts[k] = v
 	}
 	return ns
 }
@@ -956,6 +962,8 @@ func (n *normalizer) expandMode(call *ast.CallExpr, st *inlState, tail bool) (pr
 		lit *ast.FuncLit
 	}
 	var litParams []litParam
+	constParams := map[types.Object]constant.Value{}
+	argFolder := &constFolder{n: n, consts: st.consts}
 	ai := 0
 	pi := 0
 	for _, f := range fd.Type.Params.List {
@@ -998,6 +1006,15 @@ func (n *normalizer) expandMode(call *ast.CallExpr, st *inlState, tail bool) (pr
 			tmp := fmt.Sprintf("%s_p%d", tag, pi)
 			pi++
 			prefix = append(prefix, decl(tmp, pt, val))
+			if nm != nil && nm.Name != "_" && val != nil {
+				if _, isEll := f.Type.(*ast.Ellipsis); !isEll {
+					if cv, isConst := argFolder.val(val); isConst {
+						if pv := n.info.Defs[nm]; pv != nil && n.paramNeverWritten(fd, pv) {
+							constParams[pv] = cv
+						}
+					}
+				}
+			}
 			if lit, isLit := ast.Unparen(val).(*ast.FuncLit); isLit && nm != nil && nm.Name != "_" {
 				if pv := n.info.Defs[nm]; pv != nil && n.litParamUsable(fd, pv) {
 					litParams = append(litParams, litParam{pv, lit})
@@ -1085,6 +1102,17 @@ func (n *normalizer) expandMode(call *ast.CallExpr, st *inlState, tail bool) (pr
 				n.propagateMethodValues(cb)
 				break
 			}
+		}
+	}
+	// branches decided by constant arguments (normalize_fold.go)
+	for k, v := range constParams {
+		inner.consts[k] = v
+	}
+	if len(inner.consts) > 0 {
+		if n.foldConstParams(cb, inner.consts) > 0 && n.foldLeftUnused(cb) {
+			// an arm that was dropped held the only use of a local: leave this body as it is
+			cb = n.clone(fd.Body).(*ast.BlockStmt)
+			n.propagateMethodValues(cb)
 		}
 	}
 	okBody := true
